@@ -435,7 +435,9 @@ def _opaque(interp, args, kwargs, node, frame):
 @api("new_object")
 def _new_object(interp, args, kwargs, node, frame):
     cls = args[0] if args else None
-    return SObj(cls if isinstance(cls, SClass) else None, kwargs)
+    o = SObj(cls if isinstance(cls, SClass) else None, kwargs)
+    o.ctor_bypassed = True        # built by a harness without running the class's constructor
+    return o
 
 
 class Outcome:
